@@ -1357,20 +1357,39 @@ example (vm : CoreVM.VM) (flowId : String) (args : List (String × Val))
     (hid : (OMap.lookup flowId vm.r.idStates).getD [] = []) : Refine.RefAgree ν φ vm flowId args (fun _ => false) :=
   Refine.refAgree_of_no_inst ν φ vm flowId args hid
 
+/-- `add_new_flow_instance` (run when a `StartFlow` event creates an instance) IS `createInst` on the abstraction: exactly one fresh
+    WAITING record (no parent, no children, one head, `activated = 0`) at a uid that was not in use, appended to the order.
+    Hypotheses: no shared context, the parameter evaluation of `create_flow_instance` is a frame (`ArgsFrame`), not the main flow.
+    The link to the parent (`_start_flow`) happens later and is NOT refined (the Lifetime machine has both as ONE operation). -/
+theorem corevm_create_is_op (hν : Function.Injective ν) (uid : CoreIndex.FUid) (cfg : CoreVM.FlowCfg) (hp : String)
+    (args : List (String × Val)) (vm vm' : CoreVM.VM) (hw : Refine.WF vm) (hctx : CoreVM.lookupArg "context" args = none)
+    (hargs : Refine.ArgsFrame cfg args) (hmain : cfg.id ≠ "main") (hrun : CoreVM.addNewFlowInstance uid cfg hp args vm = .ok () vm') :
+    (Refine.absVM ν φ vm).flows (ν uid) = none ∧
+      Refine.absVM ν φ vm' = Refine.createInst (Refine.absVM ν φ vm) (ν uid) (φ cfg.id) ∧ Refine.WF vm' :=
+  Refine.corevm_addNewFlowInstance_is_create ν φ hν uid cfg hp args vm vm' hw hctx hargs hmain hrun
+
+-- non-vacuity of `ArgsFrame`: flows without parameters and return members
+example (cfg : CoreVM.FlowCfg) (evArgs : List (String × Val)) (hp : cfg.params = []) (hr : cfg.returnMembers = []) :
+    Refine.ArgsFrame cfg evArgs := Refine.argsFrame_of_empty cfg evArgs hp hr
+
 /-- every refined CoreVM step (`Refine.RefinedStep`: outermost `abortFlow` / `finishFlow`; the `EndScope`, `BeginScope`,
-    `start_new_flow_instance`-label and effect-free elements of `slideStep`; `StopFlow` / `FinishFlow(flow_instance_uid=…)` and
-    non-creating `StartFlow` processing; `StopFlow` / `FinishFlow(flow_id=…)` with their loop over `flow_id_states`; `setFlowStatus` along the status
-    order; `updateActionStatusByEvent` for an admissible action event) IS a sequence of operations of the Lifetime machine
-    (`abort`, `finish`, `endScope`, `label`, `reactivate`, `frame`, `status`, `event`; at most one except for `StopFlow` / `FinishFlow(flow_id=…)`)
-    on the abstraction -/
+    `start_new_flow_instance`-label and effect-free elements of `slideStep`; `StopFlow` / `FinishFlow` processing in all forms
+    (`flow_instance_uid=…`, `flow_id=…` with the loop over `flow_id_states`); non-creating `StartFlow` processing; `setFlowStatus`
+    along the status order; `updateActionStatusByEvent` for an admissible action event; `addNewFlowInstance`) IS a sequence of
+    operations of the Lifetime machine (`abort`, `finish`, `endScope`, `label`, `reactivate`, `frame`, `status`, `event`; at most
+    one except for the `flow_id=…` forms) on the abstraction, or the creation of an isolated instance -/
 theorem corevm_refined_step_is_op (hν : Function.Injective ν) (hφ : Function.Injective φ) (vm vm' : CoreVM.VM) (hw : Refine.WF vm)
     (h : Refine.RefinedStep ν φ vm vm') :
-    Refine.WF vm' ∧ ∃ ops : List IOp, (∀ op ∈ ops, Refine.Covered op) ∧
-      Refine.absVM ν φ vm' = Refine.cs (ops.foldl applyOp (Refine.absVM ν φ vm)) :=
+    Refine.WF vm' ∧
+      ((∃ ops : List IOp, (∀ op ∈ ops, Refine.Covered op) ∧
+          Refine.absVM ν φ vm' = Refine.cs (ops.foldl applyOp (Refine.absVM ν φ vm))) ∨
+       (∃ c fid, (Refine.absVM ν φ vm).flows c = none ∧ unlisted (Refine.absVM ν φ vm) c = true ∧
+          Refine.absVM ν φ vm' = Refine.createInst (Refine.absVM ν φ vm) c fid)) :=
   Refine.refinedStep_is_op ν φ hν hφ vm vm' hw h
 
-/-- PARTIAL (`corevm_lifetime_invariant` would quantify over ALL steps of `CoreVM.runToCompletion`; instance creation +
-    `_start_flow`, the new-action / `Start` / conflict-resolution sites and head movement in general are not refined, and the action clauses do not transfer because `absVM` forgets the outgoing events): the hierarchy part of the lifetime
+/-- PARTIAL (`corevm_lifetime_invariant` would quantify over ALL steps of `CoreVM.runToCompletion`; `_start_flow`, the new-action /
+    `Start` / conflict-resolution sites and head movement in general are not refined, and the action clauses do not transfer
+    because `absVM` forgets the outgoing events): the hierarchy part of the lifetime
     invariant — `FlowInv` (children form, restarted instances under their reference instance, main flow a root) and `LinkInv` (every
     listening instance is listed by its parent) — holds for the abstraction along every sequence of refined CoreVM steps. -/
 theorem corevm_hierarchy_invariant_partial (hν : Function.Injective ν) (hφ : Function.Injective φ) (vm vm' : CoreVM.VM)
